@@ -308,6 +308,38 @@ def F16_C10_dict_subclass_of_slotted_loses_fields():
         return "copy.copy of a dict attrs subclass of a slotted attrs class lost the subclass's own field"
 
 
+def F17_C12_assoc_stale_cached_hash():
+    import warnings
+    @attr.s(unsafe_hash=True, cache_hash=True)
+    class D:
+        a = attr.ib()
+
+    x = D(1)
+    hash(x)
+    with warnings.catch_warnings():
+        warnings.simplefilter("ignore")
+        y = attr.assoc(x, a=2)
+    if hash(y) != hash(D(2)):
+        return "assoc: the changed copy answers the original's cached hash"
+
+
+def F18_C12_assoc_accepts_tuple_methods():
+    import warnings
+    @attr.s
+    class D:
+        a = attr.ib()
+
+    with warnings.catch_warnings():
+        warnings.simplefilter("ignore")
+        try:
+            attr.assoc(D(1), count=3)
+        except attr.exceptions.AttrsAttributeNotFoundError:
+            return None
+        except Exception as e:
+            return "assoc(count=...) raised %s" % type(e).__name__
+    return "assoc(inst, count=3) did not raise AttrsAttributeNotFoundError"
+
+
 ALL = {k: v for k, v in list(globals().items()) if k[0] in "FK" and k[1].isdigit()}
 
 if __name__ == "__main__":
